@@ -43,15 +43,15 @@ theorem sessionKeyCallee_eq (C : Crypto) (be : Backend) (A B v b : Bytes) :
   simp only [calculateSessionKey]
   cases hS : calculateS be A v (calculateU C A B) b with
   | panic m =>
-    simp [sessionKeyCallee, Gen.CodeApi.calculateSessionKey, ApiFn.run, runBody, Rhs.eval, atomsVal, Atom.val, lookup, bindVar, sessionKeyPrims,
+    simp [sessionKeyCallee, Gen.CodeApi.calculateSessionKey, ApiFn.run, runBody, Rhs.eval, drawKinds, atomsVal, Atom.val, lookup, bindVar, sessionKeyPrims,
       srpPrims, hashCallee_calculate_u, outBytes, hS, Out.bind, bind]
   | ok S =>
     cases hK : calculateInterleaved C S with
     | panic m =>
-      simp [sessionKeyCallee, Gen.CodeApi.calculateSessionKey, ApiFn.run, runBody, Rhs.eval, Ret.eval, atomsVal, Atom.val, lookup, bindVar,
+      simp [sessionKeyCallee, Gen.CodeApi.calculateSessionKey, ApiFn.run, runBody, Rhs.eval, drawKinds, Ret.eval, atomsVal, Atom.val, lookup, bindVar,
         sessionKeyPrims, srpPrims, hashCallee_calculate_u, outBytes, hS, hK, Out.bind, bind]
     | ok K =>
-      simp [sessionKeyCallee, Gen.CodeApi.calculateSessionKey, ApiFn.run, runBody, Rhs.eval, Ret.eval, atomsVal, Atom.val, lookup, bindVar,
+      simp [sessionKeyCallee, Gen.CodeApi.calculateSessionKey, ApiFn.run, runBody, Rhs.eval, drawKinds, Ret.eval, atomsVal, Atom.val, lookup, bindVar,
         sessionKeyPrims, srpPrims, hashCallee_calculate_u, outBytes, hS, hK, Out.bind, bind]
 
 /-- `SrpProof::into_server` with every hash callee and `calculate_session_key` meaning their TRANSLATED terms: still the model's function -/
@@ -63,14 +63,14 @@ theorem C02_linked_into_server (C : Crypto) (be : Backend) (p : SrpProof) (A M1 
   simp only [SrpProof.intoServer]
   cases hK : calculateSessionKey C be A p.serverPublicKey p.passwordVerifier p.serverPrivateKey with
   | panic m =>
-    simp [Gen.CodeApi.intoServer, ApiFn.run, runBody, Rhs.eval, atomsVal, Atom.val, lookup, linkedPrims, sessionKeyCallee_eq, outBytes, selfProof, hK,
+    simp [Gen.CodeApi.intoServer, ApiFn.run, runBody, Rhs.eval, drawKinds, atomsVal, Atom.val, lookup, linkedPrims, sessionKeyCallee_eq, outBytes, selfProof, hK,
       Out.bind, bind]
   | ok K =>
     by_cases hM : M1 = calculateClientProof C p.username.asRef K A p.serverPublicKey p.salt
-    · simp [Gen.CodeApi.intoServer, ApiFn.run, runBody, Rhs.eval, Ret.eval, atomsVal, fieldsVal, Atom.val, lookup, bindVar, linkedPrims,
+    · simp [Gen.CodeApi.intoServer, ApiFn.run, runBody, Rhs.eval, drawKinds, Ret.eval, atomsVal, fieldsVal, Atom.val, lookup, bindVar, linkedPrims,
         sessionKeyCallee_eq, hashCallee_client_proof, hashCallee_server_proof, outBytes, selfProof, valServer, valMatchErr, eqVal, hK, hM, Out.bind, bind]
     · have hb : (M1 == calculateClientProof C p.username.asRef K A p.serverPublicKey p.salt) = false := by simp [hM]
-      simp [hb, Gen.CodeApi.intoServer, ApiFn.run, runBody, Rhs.eval, Ret.eval, atomsVal, fieldsVal, Atom.val, lookup, bindVar, linkedPrims,
+      simp [hb, Gen.CodeApi.intoServer, ApiFn.run, runBody, Rhs.eval, drawKinds, Ret.eval, atomsVal, fieldsVal, Atom.val, lookup, bindVar, linkedPrims,
         sessionKeyCallee_eq, hashCallee_client_proof, hashCallee_server_proof, outBytes, selfProof, valServer, valMatchErr, eqVal, hK, hM, Out.bind, bind]
 
 #print axioms C02_linked_into_server
